@@ -54,6 +54,17 @@ else:
 FLAG_REF = 0x80
 
 
+class _NullType:
+    """Sentinel for marshal's TYPE_NULL ('0'). It must differ from None, which is a
+    legal dictionary key and value."""
+
+    def __repr__(self):
+        return "<NULL>"
+
+
+_NULL = _NullType()
+
+
 # The keys in the following dictionary are unmarshal codes, like "s",
 # "c", "<", etc. The values of the dictionary are names of routines
 # to call that do the data unmarshaling.
@@ -241,7 +252,7 @@ class _VersionIndependentUnmarshaller:
     # In C this NULL. Not sure what it should
     # translate here. Note NULL != None which is below
     def t_C_NULL(self, save_ref, bytes_for_s=False):
-        return None
+        return _NULL
 
     def t_None(self, save_ref, bytes_for_s=False):
         return None
@@ -428,10 +439,10 @@ class _VersionIndependentUnmarshaller:
         # dictionary
         while True:
             key = self.r_object(bytes_for_s=bytes_for_s)
-            if key is None:
+            if key is _NULL:
                 break
             val = self.r_object(bytes_for_s=bytes_for_s)
-            if val is None:
+            if val is _NULL:
                 break
             ret[key] = val
             pass
